@@ -10,13 +10,24 @@ CONF = dict(
  'denser at the 3rd/4th sample after a reset point; explicit Reset, clock-epoch changes (+1, -1, wrap-around, random) and both at random positions; a registered fake '
  'clock provides Epoch(); every stretch between reset points is also replayed on a new filter. Non-trivial: lucky history with capacity >= 2 that evicted from the window or '
  'contains a Reset; Ntimed history in which the filter replaced the midpoint (branch 2 or 3, read from its debug record) or with >= 4 samples after a reset point; '
+ 'lucky.reset / ntimed.reset (Reset equals fresh): a filter runs a prefix from one regime (Ntimed: in half of the cases one-way differences of 2^55..2^61 ns, whose averages leave a '
+ 'rounding residue in every state field), is Reset (explicitly, by a clock-epoch change, both, or twice) and runs a suffix from another regime with one-sided outliers after the warm-up '
+ '(lucky: the prefix holds the lower delays); a newly constructed filter runs the same suffix; the two output lists must be identical and equal to the model; non-trivial: '
+ 'lucky with capacity >= 2 and >= 2 samples before the Reset, Ntimed with >= 4 samples before and >= 5 after the Reset and a replaced midpoint (branch 2/3) after it. '
+ 'lucky.wild / ntimed.wild: histories made of degenerate and out-of-range samples (identical timestamps, zero delay, negative round trip, negative processing time, hi < lo, '
+ 'one-way differences in [2^62, 2^63) ns, saturating differences beyond 292 years in one or both directions, the corner lo + hi >= 2^64 - 2^14, its surroundings and its mirror image), '
+ 'all non-trivial. Ties on windows of at most 12 samples are compared exactly (stable insertion sort), on longer windows relationally; '
  'distinct = distinct (kind, input)'),
     assumptions=['float64 arithmetic of Go on amd64 = IEEE-754 binary64 round-to-nearest-even without FMA contraction, math.Sqrt = correctly rounded SQRTSD (Flocq '
  'BinarySingleNaN); int64(float64) = CVTTSD2SQ (-2^63 when out of range)',
  'slices.SortFunc returns a sorted permutation (its contract); the lucky-packet selection theorem is proved for every such permutation under pairwise distinct delays '
- '(the property\'s quantifier); tied delays are only compared relationally',
+ '(the property\'s quantifier); slices.SortFunc on at most 12 elements is insertionSortCmpFunc (Go 1.24 source, modelled literally as go_isort and proved to be the stable sort); '
+ 'tied delays on longer windows (pdqsort proper) are only compared relationally',
  'time.Time as unbounded nanoseconds, Time.Sub saturating; lucky-packet oracle for offsets below 2^62 ns (no int64 wrap in the even-count midpoint); '
- 'numeric closeness of the Ntimed raw offset stated (and proved for the model) for one-way differences below 2^62 ns, tolerance 2 ns + 2^-50 relative',
+ 'numeric closeness of the Ntimed raw offset stated and proved for the model on every sample: against ntp.ClockOffset for one-way differences below 2^62 ns, against the offset over '
+ 'the integers -(lo+hi)/2 of the saturated differences beyond (ntp.ClockOffset itself wraps there), tolerance 2 ns + 2^-50 relative; named observation (not an alarm): in the corner '
+ 'lo + hi >= 2^64 - 2^14 (both one-way differences within 8 us of +292 years) float64 mid*1e9 rounds to 2^63, int64() of it is -2^63 and timemath.Inv returns MaxInt64, i.e. +292 years for an '
+ 'offset of -292 years; the oracle tolerates exactly that value there (C17_ntimed_raw_corner, C17_ntimed_corner_example)',
  'the epoch the filter sees is what the registered clock reports during the call (fake clock scripted per call)'],
     trusted=['Flocq 4 (IEEE754.BinarySingleNaN) as the float64 semantics; theorems about the Ntimed model depend on the four standard-library axioms Flocq uses; the '
  'lucky-packet theorems are closed under the global context',
@@ -32,13 +43,17 @@ CONF = dict(
  'learned bounds; outputs equal to those of new filters started at every reset point) is evaluated on the implementation\'s outputs'),
     level_note=('The numeric clause is proved (C17_ntimed_raw_close, _raw_sign, _raw_close_oracle): |raw_f - ClockOffset| <= 2 ns + 2^-50 relative and same sign for all samples '
  'with one-way differences below 2^62 ns, from the Flocq semantics (four roundings at 2^-53 relative + underflow term, exact int->float below 2^53, truncating float->int); '
- 'within 1 ns while |lo|+|hi| < 2^50 ns (C17_ntimed_raw_close_1ns); hence C17_ntimed_oracle holds for all histories without hypothesis. Beyond 2^62 ns the oracle does not judge '
- 'the numeric clause. "Within the learned bounds" is evaluated with the limits of the model state. Tied round-trip delays (outside the property\'s quantifier) are accepted by an '
- 'executable relation (some choice among the tied samples) without a soundness theorem.'),
+ 'within 1 ns while |lo|+|hi| < 2^50 ns (C17_ntimed_raw_close_1ns); beyond 2^62 ns (Time.Sub saturating) the same bound against -(lo+hi)/2 over the integers (C17_ntimed_raw_wide), '
+ 'with the one named corner (C17_ntimed_raw_corner); hence C17_ntimed_oracle holds for all histories without hypothesis. Reset equals fresh is proved for all states of both filters '
+ '(C17_lucky_reset_fresh/_state, C17_ntimed_reset_fresh/_state/_epoch_fresh) and checked on the implementation by the reset kinds. Ties: exact for windows of at most 12 samples '
+ '(C17_lucky_ties: Go\'s insertion sort = stable sort, the older sample of equal delay is kept; the oracle judges these windows too); windows of 13 and more samples with tied delays '
+ '(pdqsort proper, not modelled) are accepted by an executable relation (some choice among the tied samples) without a soundness theorem. "Within the learned bounds" is evaluated '
+ 'with the limits of the model state.'),
     explanation=('C17_lucky_spec/_oracle: for all histories the configured filter returns the median offset of the min(k,N) lowest-delay samples of the last N since Reset; '
  'C17_ntimed_raw_young/_within: raw offset during warm-up and within bounds; C17_ntimed_raw_close/_sign: that raw offset is within 2 ns + 2^-50 relative of ntp.ClockOffset with its sign; '
- 'C17_ntimed_reset/_restart: outputs after a reset point are those of a new filter; C17_ntimed_oracle: the model meets the whole Ntimed oracle on all histories.'),
+ 'C17_ntimed_reset/_restart/_reset_fresh: outputs after a reset point are those of a new filter, for all states; C17_lucky_reset_fresh: the same for the lucky-packet filter; '
+ 'C17_lucky_ties: equal delays keep the older sample (windows up to 12); C17_ntimed_raw_wide/_corner: behaviour beyond 2^62 ns; C17_ntimed_oracle: the model meets the whole Ntimed oracle on all histories.'),
     timeout_quick=600,
     timeout_thorough=3000,
-    min_cases={'lucky.hist': 361, 'lucky.new': 9, 'ntimed.hist': 360},
+    min_cases={'lucky.hist': 361, 'lucky.new': 9, 'lucky.reset': 120, 'lucky.wild': 90, 'ntimed.hist': 360, 'ntimed.reset': 120, 'ntimed.wild': 90},
 )
